@@ -13,7 +13,7 @@ WITH=$(run_suite)
 PYTHONPATH=$WT /venv/bin/python $M/demo.py >/dev/null 2>&1; D1=$?
 git checkout -q -- pyrtl
 echo "base:  $BASE"; echo "with:  $WITH"; echo "demo unchanged exit=$D0 changed exit=$D1"
-B=$(echo "$BASE" | sed 's/ in .*//'); W=$(echo "$WITH" | sed 's/ in .*//')
+B=$(echo "$BASE" | sed 's/, [0-9]* warnings.*//; s/ in .*//'); W=$(echo "$WITH" | sed 's/, [0-9]* warnings.*//; s/ in .*//')
 if [ "$B" == "$W" ] && [ $D0 -eq 0 ] && [ $D1 -ne 0 ]; then
   mkdir -p /verif/seeded/$ID
   cp $M/patch.diff /verif/seeded/$ID/patch.diff
